@@ -13,6 +13,7 @@ deterministic values.
 from twisted.logger import _flatten as FL
 from twisted.logger import _format as F
 from twisted.logger import _json as J
+from twisted.logger import LogLevel
 from twisted.python.failure import Failure
 
 from vlib import api
@@ -70,7 +71,32 @@ class Obj:
         return "Obj-as-str"
 
 
-NVAL = 10
+class Counter:
+    """callable whose result changes with every call (deterministic per event: every event is built
+    with a fresh one).  `{a()} {a()}` is "1 2"; flattening must keep the two results apart"""
+
+    def __init__(self):
+        self.n = 0
+
+    def __call__(self):
+        self.n += 1
+        return self.n
+
+    def __repr__(self):
+        return "<Counter>"
+
+
+class FmtDiff:
+    """deterministic, but format(x, "") differs from str(x)"""
+
+    def __str__(self):
+        return "S"
+
+    def __format__(self, spec):
+        return format("F", spec)
+
+
+NVAL = 12
 
 
 def _value(k):
@@ -92,7 +118,11 @@ def _value(k):
         return b"\xffab"
     if k == 8:
         return None
-    return 2.5
+    if k == 9:
+        return 2.5
+    if k == 10:
+        return Counter()
+    return FmtDiff()
 
 
 def _failure():
@@ -102,18 +132,40 @@ def _failure():
         return Failure()
 
 
-def _load(text):
-    """eventFromJSON on the serialized text.  Under the solver the text is made concrete first (its
-    symbolic characters are already pinned by the path: every character of a replacement field went
-    into a flattening key) and the real C decoder runs outside the tracer: decoding a ~150 character
-    symbolic text through the pure-Python scanner costs ~20 CPU s per call"""
+def _conc(x):
+    """plain-Python copy of an event (dicts, lists, symbolic strs -> str); other objects as they are.
+    Under the solver the symbolic characters are already pinned when this is called: every character
+    of a replacement field went into a flattening key (hashed by KeyFlattener), so this adds no paths
+    beyond those the real code made; were a character still free, the remaining values are explored
+    as further paths (CrossHair realisation is exhaustive)."""
+    if api.MODE != "sym" or not _c55._tracing_now():
+        return x
+    from crosshair.core import realize
+    from crosshair.libimpl.builtinslib import AnySymbolicStr
+    from crosshair.tracers import NoTracing
+
+    def go(v):
+        if isinstance(v, AnySymbolicStr):
+            return realize(v)
+        if isinstance(v, dict):
+            return {go(k): go(w) for k, w in dict.items(v)}
+        if type(v) is list:
+            return [go(w) for w in v]
+        return v
+    with NoTracing():
+        return go(x)
+
+
+def _json_roundtrip(event):
+    """eventFromJSON(eventAsJSON(event)) on a concrete copy with the real (C) json module, outside
+    the tracer (CrossHair's pure-Python json costs ~0.5 s per dump and ~20 s per load of a text with
+    symbolic characters)"""
+    event = _conc(event)
     if api.MODE == "sym" and _c55._tracing_now():
-        from crosshair.core import deep_realize
         from crosshair.tracers import NoTracing
         with NoTracing():
-            text = deep_realize(text)
-            return J.eventFromJSON(text)
-    return J.eventFromJSON(text)
+            return J.eventFromJSON(J.eventAsJSON(event))
+    return J.eventFromJSON(J.eventAsJSON(event))
 
 
 def _same(x, y):
@@ -128,11 +180,12 @@ def _check(fmt, va, vb, with_failure, field=None):
         ev = {"log_format": fmt, "a": _value(va), "b": _value(vb)}
         if with_failure:
             ev["log_failure"] = fail
+            ev["log_level"] = LogLevel.warn
         return _event(ev)
     fail = _failure() if with_failure else None
     original = build()
     try:
-        text = F.formatWithCall(fmt, original)
+        text = F.formatWithCall(fmt, build())
     except Exception:  # noqa
         return None
     if not isinstance(text, str):
@@ -158,11 +211,11 @@ def _after(fmt, text, original, build, with_failure, field):
     if not _same(text, F.formatEvent(flat)):
         return False
     # --- JSON round trip (eventAsJSON flattens by itself)
-    loaded = _load(J.eventAsJSON(build()))
+    loaded = _json_roundtrip(build())
     if not _same(text, F.formatEvent(loaded)):
         return False
     # ... and of the already flattened copy
-    loaded2 = _load(J.eventAsJSON(flat))
+    loaded2 = _json_roundtrip(flat)
     if not _same(text, F.formatEvent(loaded2)):
         return False
     if with_failure:
@@ -171,24 +224,29 @@ def _after(fmt, text, original, build, with_failure, field):
         f0, f1 = original["log_failure"], loaded.get("log_failure")
         if not isinstance(f1, Failure) or f1.type.__name__ != f0.type.__name__:
             return False
+        if loaded.get("log_level") is not LogLevel.warn:
+            return False
         if [list(fr[:3]) for fr in f1.frames] != [list(fr[:3]) for fr in f0.frames]:
             return False
         if not isinstance(F.eventAsText(loaded, includeTimestamp=False, includeSystem=False), str):
             return False
     if field is not None:
         # extractField: with a conversion the text of the field, without one the object itself
-        got = FL.extractField(field, build())
-        convs = [c for (_l, _n, _s, c) in F.aFormatter.parse("{" + field + "}")]
-        if convs[0] is None:
-            want = F.aFormatter.get_field(field, (), F.CallMapping(original))[0]
-            want = getattr(want, "_wrapped", want)
-            if type(got) is not type(want) or not _same(repr(got), repr(want)):
-                return False
-        else:
-            if not _same(got, text[1:-1]):
-                return False
-            if not _same(FL.extractField(field, loaded), text[1:-1]):
-                return False
+        parsed = list(F.aFormatter.parse("{" + field + "}"))
+        if len(parsed) == 1:       # (the symbolic part may close the field early: then not one field)
+            _lit, name, _spec, conv = parsed[0]
+            got = FL.extractField(field, build())
+            if conv is None:
+                want = F.aFormatter.get_field(name, (), F.CallMapping(build()))[0]
+                want = getattr(want, "_wrapped", want)
+                if type(got) is not type(want) or not _same(repr(got), repr(want)):
+                    return False
+            else:
+                if not _same(got, text[1:-1]):
+                    return False
+                if not _same(FL.extractField(field, loaded), text[1:-1]):
+                    return False
+            cover("extract")
     return True
 
 
@@ -210,7 +268,7 @@ def single(body: str, va: int, fl: bool) -> bool:
 def free_field(body: str, va: int) -> bool:
     """
     pre: 0 <= va < NVAL
-    pre: len(body) <= B['m'] + 1
+    pre: len(body) <= B['m']
     pre: _in_alpha(body)
     post: _
     """
@@ -222,16 +280,67 @@ def free_field(body: str, va: int) -> bool:
     return r
 
 
-def double(c1: str, c2: str, va: int, second: int) -> bool:
+# lookups that exist on each menu value (and two that do not), as concrete text: the solver picks one
+CHAINS = (
+    ("", ".real", ".zz"),                                              # 0 int
+    ("", "[0]"),                                                       # 1 str
+    ("", "[0]", "[1]", "[9]"),                                         # 2 list
+    ("", "[a]", "[b]", "[b][0]", "[r]", "[r]()", "[s]", "[0]"),        # 3 dict
+    ("", ".a", ".b", ".r", ".r()", ".s", ".s[1]", ".zz"),              # 4 Obj
+    ("", "()"),                                                        # 5 Ret
+    ("", "()", "().a", "().r()", "().s[0]", "().r"),                   # 6 RetObj
+    ("", "[0]"),                                                       # 7 bytes
+    ("",),                                                             # 8 None
+    ("", ".real"),                                                     # 9 float
+    ("()", ""),                                                        # 10 Counter
+    ("",),                                                             # 11 FmtDiff
+)
+
+
+def classify(harness_name, args):
+    """key of the OPEN known finding (only used while it is listed open in KNOWN_FINDINGS.json)"""
+    if args.get("va") == 11:
+        return "c56-format-differs-from-str"
+    return None
+
+
+EXCLUDE = {
+    "c56-format-differs-from-str": {"single": "va != 11", "free_field": "va != 11", "chain": "va != 11",
+                                    "double": "va != 11"},
+}
+
+
+def chain(va: int, ci: int, tail: str) -> bool:
     """
-    pre: 0 <= va < NVAL and 0 <= second <= 1
-    pre: len(c1) <= B['k'] and len(c2) <= B['k']
-    pre: _in_alpha(c1) and _in_alpha(c2)
+    pre: 0 <= va < NVAL and 0 <= ci < len(CHAINS[va])
+    pre: len(tail) <= B['k']
+    pre: _in_alpha(tail)
     post: _
     """
-    # two fields: the same name twice (duplicate keys, same or different conversion / spec) or a and b
-    name2 = "a" if second == 0 else "b"
-    r = _check("{a" + c1 + "} and {" + name2 + c2 + "}", va, 1, False)
+    # 'a' + a lookup chain that exists on the value (attribute / index / call syntax in any position)
+    # + symbolic tail (conversion and / or format spec - or anything else)
+    field = "a" + _pick(ci, CHAINS[va]) + tail
+    r = _check("<{" + field + "}>", va, 0, False, field=field)
+    if r is None:
+        return True
+    cover()
+    return r
+
+
+TAILS = ("", "!r", "!s", "!a", ":", ":>9", "!r:<9", "()", ":{b}", "!s:>{b}")
+
+
+def double(t1: int, t2: int, va: int, second: int, ci: int) -> bool:
+    """
+    pre: 0 <= va < NVAL and 0 <= second <= 1 and 0 <= ci < len(CHAINS[va]) and ci <= 2
+    pre: 0 <= t1 < len(TAILS) and 0 <= t2 < len(TAILS)
+    post: _
+    """
+    # two fields: the same name twice (duplicate keys with the same or a different conversion /
+    # spec: the '/2' counter of KeyFlattener) or a and b; menus only (the solver drives the split)
+    name1 = "a" + _pick(ci, CHAINS[va])
+    name2 = name1 if second == 0 else "b"
+    r = _check("{" + name1 + _pick(t1, TAILS) + "} and {" + name2 + _pick(t2, TAILS) + "}", va, 0, False)
     if r is None:
         return True
     cover()
@@ -246,35 +355,68 @@ def _single_shards(tier):
 
 
 def _free_shards(tier):
-    m = BOUNDS[tier]["m"] + 1
+    m = BOUNDS[tier]["m"]
     out = [("len(body) <= %d" % (m - 1),)]
-    out += [("len(body) == %d" % m, "va == %d" % a) for a in range(NVAL)]
+    out += [("len(body) == %d" % m, "va == %d" % a) for a in ((0, 3, 4) if tier == "quick" else range(NVAL))]
     return out
 
 
-def _double_shards(tier):
+def _chain_shards(tier):
     k = BOUNDS[tier]["k"]
-    return [("len(c1) == %d" % i, "len(c2) == %d" % j, "second == %d" % s)
-            for i in range(k + 1) for j in range(k + 1) for s in (0, 1)]
+    out = [("len(tail) <= %d" % (k - 1), "va <= 4"), ("len(tail) <= %d" % (k - 1), "va >= 5")]
+    out += [("len(tail) == %d" % k, "va == %d" % a) for a in range(NVAL)]
+    return out
 
 
 HARNESSES = [
-    H(single, shards=_single_shards, timeout={"quick": 90, "thorough": 1200}, labels=("end", "formats")),
+    H(single, shards=_single_shards, timeout={"quick": 90, "thorough": 1200}, labels=("end", "formats", "extract")),
     H(free_field, shards=_free_shards, timeout={"quick": 90, "thorough": 1200}),
-    H(double, shards=_double_shards, timeout={"quick": 90, "thorough": 1200}),
+    H(chain, shards=_chain_shards, timeout={"quick": 90, "thorough": 1200}, labels=("end", "extract")),
+    H(double, shards=lambda tier: [("va == %d" % a,) for a in range(NVAL)], timeout={"quick": 90, "thorough": 600}),
 ]
 
 VECTORS = {
+    # twisted.logger.test.test_flatten (formatFlatEvent: callable, attribute, numrepr/numstr/strrepr/unistr;
+    # formatFlatEventBadFormat-free cases; flatten same field twice; extractField variants) and
+    # test_json (round trips incl. bytes, Failure) mapped onto the menus
     "single": [("", 0, False), ("!r", 1, True), (".r()", 4, False), ("[0]", 2, False), ("()", 5, False),
-               ("[b][0]", 3, False), (".s[1]!r", 4, True), ("!s", 7, False)],
+               ("[b][0]", 3, False), (".s[1]!r", 4, True), ("!s", 7, False), (":>5", 0, False), ("!a", 1, False),
+               ("().b", 6, False), ("!r:>12", 1, False), (":{b}", 1, False)],
     "free_field": [("a", 9), ("b.a", 0), ("b.r()!r", 0), ("a[a]", 3)],
-    "double": [("", "", 0, 0), ("!r", "!s", 1, 0), ("!r", "!r", 1, 0), ("", "!r", 4, 1), ("()", "()", 5, 0)],
+    "chain": [(4, 4, "!r"), (6, 3, ""), (3, 3, "!s"), (2, 1, ":>4"), (0, 1, "!a")],
+    "double": [(0, 0, 0, 0, 0), (1, 2, 1, 0, 0), (1, 1, 1, 0, 0), (0, 1, 4, 1, 1), (7, 7, 5, 0, 0), (5, 6, 0, 0, 0),
+               (8, 9, 1, 0, 0), (3, 3, 1, 1, 0)],
 }
 
-BOUNDS_TEXT = "TODO"
-OUTSIDE = []
-ASSUMPTIONS = []
-EXPLANATION = "TODO"
+BOUNDS_TEXT = ("format strings '<{a' + body + '}>' with symbolic body of <= m characters over the 14 characters "
+               "{ } ! : . [ ] ( ) a b 0 r s (single; with and without log_failure + log_level), '{' + body + '}' "
+               "with entirely symbolic body of <= m characters (free_field), 'a' + one of the lookup chains that "
+               "exist on the value (attribute, index, call syntax in last and non-last position; 40 chains in "
+               "all) + symbolic tail of <= k characters = conversion / format spec / anything (chain), and two "
+               "fields {x t1} and {x|b t2} with x a chain and t1, t2 from 10 conversion / spec suffixes incl. "
+               "nested specs (double; menus); values: int, str with quote / backslash / non-ASCII / newline, "
+               "list, dict, object with attributes, callables returning text / an object / a fresh count per "
+               "call, bytes, None, float, object whose format(x, '') differs from str(x)")
+OUTSIDE = ["events whose format string does NOT format on the original event (formatWithCall raises): nothing is "
+           "claimed about the text after flattening then",
+           "values that format non-deterministically or change between flatten time and format time (flattening "
+           "stores the text at flatten time by design)",
+           "the structured values after JSON (non-JSON types become {'unpersistable': true} / charmap text by "
+           "design) and the exception VALUE of a Failure (its traceback's last line changes); checked: text of "
+           "formatEvent, extractField text, Failure type name + frames, LogLevel identity",
+           "format strings longer than the bounds or with characters outside the alphabet; field names other than "
+           "the listed chains beyond m symbolic characters",
+           "jsonFileLogObserver / eventsFromJSONLogFile (record framing, buffering, truncated records)"]
+ASSUMPTIONS = ["everything listed in props/c55.py ASSUMPTIONS (pure-Python ports of _string.formatter_parser / "
+               "formatter_field_name_split validated in selftest(); restored str/repr/format result checks; "
+               "symbolic getattr; scan-dict event; control-flow exception guards)",
+               "the JSON leg runs on a concrete copy of the event with the real C json module outside the tracer: "
+               "by then every symbolic character of a replacement field has been pinned by the real flattenEvent "
+               "(KeyFlattener hashes the key), so the solver still decides which strings reach it; the symbolic "
+               "part is formatWithCall, flattenEvent, flatFormat, extractField",
+               "equality of texts is decided in both operand orders (CrossHair str == quirk)"]
+EXPLANATION = ("real formatWithCall vs flattenEvent + flatFormat vs eventAsJSON + eventFromJSON + flatFormat (and "
+               "extractField) on symbolic replacement fields; texts must be equal whenever the original formats")
 
 
 def selftest():
